@@ -424,6 +424,10 @@ class AddressType(OctetStringType):
 
     def parser_data(self, data):
         if isinstance(data, bytes):
+            if len(data) < 2:
+                raise DataTypeError("Stream of bytes does not contain "\
+                                    "the address family field")
+
             if data[:2] == HOST_IP_ADDRESS_FAMILY_CODE_IPV4:
                 try:
                     ipaddress.IPv4Address(data[2:])
